@@ -16,6 +16,7 @@ import torch
 
 STATE = dict(active=False, depth=0, phase='real', warmups=0, decoy_rounds=0, installed=False)
 _MEMO = {}
+FAILS = []          # property-level observations made by the wrappers on the real code (reported as failing inputs)
 
 
 def phase():
@@ -113,7 +114,26 @@ def _wrap(orig):
                     except Exception:
                         pass
             STATE['phase'] = 'real'
-            return orig(self, net, *coordinates)
+            out = orig(self, net, *coordinates)
+            if _concrete(coordinates) and torch.is_tensor(out) and len(FAILS) < 20:
+                # the enforced VALUES do not depend on whether the caller's coordinates track gradients (plotting, get_solution
+                # on plain tensors) - the boundary terms of Neumann ends are built from derivatives of the network internally
+                try:
+                    STATE['phase'] = 'nograd-inputs'
+                    alt = orig(self, net, *[c.detach().clone() for c in coordinates])
+                    scale = 1.0 + float(out.detach().abs().max()) if out.numel() else 1.0
+                    if alt.shape != out.shape or not torch.allclose(alt.detach(), out.detach(), rtol=1e-12, atol=1e-12 * scale):
+                        FAILS.append(dict(condition=type(self).__name__, violated='enforce() on coordinates that do not require grad gives other '
+                                          'values than on the same coordinates requiring grad',
+                                          parameters={k: v for k, v in self.__dict__.items() if isinstance(v, (int, float))},
+                                          coordinates=[c.detach().reshape(-1).tolist() for c in coordinates],
+                                          with_grad=out.detach().reshape(-1).tolist()[:8], without_grad=alt.detach().reshape(-1).tolist()[:8]))
+                except Exception as e:
+                    FAILS.append(dict(condition=type(self).__name__, violated='enforce() raises on coordinates that do not require grad',
+                                      error=f'{type(e).__name__}: {e}'))
+                finally:
+                    STATE['phase'] = 'real'
+            return out
         finally:
             STATE['phase'] = 'real'
             STATE['depth'] -= 1
@@ -124,8 +144,56 @@ def _wrap(orig):
     return enforce
 
 
+def _wrap_init(orig):
+    """a condition whose numeric parameters are stored verbatim is built here with OTHER values first and then gets the
+    intended values assigned to those public attributes - what a user does who re-uses a condition object with new
+    parameters.  Anything derived from the parameters at construction time and kept (a cached thickness, a cached sign)
+    then disagrees with the attributes.  If any numeric argument is not found verbatim among the attributes (the class
+    converts or combines its arguments), or the other values are rejected, the object is built normally."""
+    import functools
+
+    @functools.wraps(orig)
+    def __init__(self, *args, **kwargs):
+        if not STATE['active'] or STATE['depth'] > 0 or STATE.get('init_depth', 0) > 0:
+            return orig(self, *args, **kwargs)
+        STATE['init_depth'] = 1
+        try:
+            sub = {}
+
+            def perturb(v):
+                if type(v) is float:
+                    q = v * 1.25 + 0.625
+                    sub[id(q)] = (q, v)
+                    return q
+                return v
+            pa, pk = [perturb(a) for a in args], {k: perturb(v) for k, v in kwargs.items()}
+            done = False
+            if sub:
+                try:
+                    orig(self, *pa, **pk)
+                    found = set()
+                    for key, val in list(self.__dict__.items()):
+                        if id(val) in sub and not key.startswith('_'):
+                            found.add(id(val))
+                    if found == set(sub):
+                        for key, val in list(self.__dict__.items()):
+                            if id(val) in sub and not key.startswith('_'):
+                                setattr(self, key, sub[id(val)][1])
+                        STATE['reassigned_ctor'] = STATE.get('reassigned_ctor', 0) + 1
+                        done = True
+                except Exception:
+                    done = False
+            if not done:
+                self.__dict__.clear()
+                orig(self, *args, **kwargs)
+        finally:
+            STATE['init_depth'] = 0
+    __init__._verif_wrapped = True
+    return __init__
+
+
 def install():
-    """wrap `enforce` of every condition class (idempotent); returns the number of wrapped methods"""
+    """wrap `enforce` (and `__init__`) of every condition class (idempotent); returns the number of wrapped methods"""
     import neurodiffeq.conditions as C
     n = 0
     for cls in list(vars(C).values()):
@@ -134,10 +202,15 @@ def install():
             if not getattr(f, '_verif_wrapped', False):
                 setattr(cls, 'enforce', _wrap(f))
             n += 1
+        if isinstance(cls, type) and issubclass(cls, C.BaseCondition) and cls is not C.BaseCondition and '__init__' in cls.__dict__:
+            f = cls.__dict__['__init__']
+            if not getattr(f, '_verif_wrapped', False):
+                setattr(cls, '__init__', _wrap_init(f))
     STATE['installed'] = True
     STATE['active'] = True
     return n
 
 
 def stats():
-    return dict(decoy_rounds=STATE['decoy_rounds'], warmup_calls=STATE['warmups'], installed=STATE['installed'])
+    return dict(decoy_rounds=STATE['decoy_rounds'], warmup_calls=STATE['warmups'], installed=STATE['installed'],
+                conditions_built_with_reassigned_parameters=STATE.get('reassigned_ctor', 0))
